@@ -1102,7 +1102,7 @@ impl GlobalInferenceCtx<'_> {
                     //
                     // we only panic just in case the `reinfer_expr` logic is bad and we get
                     // something completely weird.
-                    if new_ty.is_weak_replaceable_by(&previous_ty) {
+                    if new_ty.is_weak_replaceable_by(&previous_ty) || new_ty.can_fit_into(&previous_ty) {
                         return false;
                     }
 
